@@ -46,24 +46,21 @@ Definition dist_okb (p : params) : bool :=
   (0 <=? p_staking p) && (0 <=? p_community p) && (0 <=? p_strategic p) &&
   (p_staking p + p_strategic p + p_community p =? PREC).
 
-Definition poly_okb (zp : bool) (p : params) : bool :=
-  forallb (fun i => (if zp then PREC else 1) <=? poly_provision p (Z.of_nat i)) (seq 0 (Z.to_nat (p_max p))).
+Definition prov_okb (zp : bool) (p : params) (c : Z) : bool :=
+  if c / p_epp p <? p_max p then (if zp then PREC else 1) <=? poly_provision p (c / p_epp p) else true.
 
-(** [g] caches poly_okb && dist_okb of the current parameters (recomputed when they are edited) *)
-Fixpoint hist_okb (zp : bool) (E M : Z) (p : params) (g : bool) (e : Z) (ops : list op) : bool :=
+Fixpoint hist_okb (zp : bool) (E M : Z) (p : params) (c e : Z) (ops : list op) : bool :=
   match ops with
   | [] => true
   | o :: r =>
       match o with
       | EpochEnd true e' =>
-          (e' =? e) && (0 <=? e) && (e <? two62) && (implb (p_enabled p) g) && hist_okb zp E M p g (e + 1) r
+          (e' =? e) && (0 <=? e) && (e <? two62) && (implb (p_enabled p) (prov_okb zp p c && dist_okb p)) &&
+          hist_okb zp E M p (if p_enabled p then c + 1 else c) (e + 1) r
       | Fund _ => false
-      | Edit _ _ =>
-          let p' := next_params p o in
-          (p_epp p' =? E) && (p_max p' =? M) && hist_okb zp E M p' (poly_okb zp p' && dist_okb p') e r
       | _ =>
           let p' := next_params p o in
-          (p_epp p' =? E) && (p_max p' =? M) && hist_okb zp E M p' g e r
+          (p_epp p' =? E) && (p_max p' =? M) && hist_okb zp E M p' c e r
       end
   end.
 
@@ -77,7 +74,7 @@ Definition pre (c : case) : bool :=
   | None => false
   | Some e =>
       consistentb s e && (s_module s =? 0) && smallb (p_epp p) (p_max p) && (0 <=? peek (s_skipped s)) &&
-      hist_okb (c_zp c) (p_epp p) (p_max p) p (poly_okb (c_zp c) p && dist_okb p) e ops
+      hist_okb (c_zp c) (p_epp p) (p_max p) p (n_of s e - 1) e ops
   end.
 
 Definition start_q (c : case) : sst :=
